@@ -100,6 +100,24 @@ def evaluate(case: Dict[str, Any]) -> Dict[str, Any]:
             res.append({"what": "the Cauchy point depends on the units: the same problem with the objective multiplied by a power of two and the variables "
                                 "expressed in another power-of-two unit does not give the rescaled point (the first local minimiser along the projected "
                                 "path is invariant)", "key": "", "detail": {"objective_factor": a, "variable_factor": b, "rel_err": err}})
+    if case.get("twin") is not None and not any("skip" in r for r in res):
+        # the same problem with the origin of the variables moved (theorem cauchy_point_shift): x, lb, ub translated by one
+        # constant, gradient and matrices unchanged (they are made of differences of points). The translation is not exact in
+        # floating point, so the comparison carries the tolerance of the comparison with the independent reference
+        # (1e-7 * cond(B) * scale).
+        cs = (1.0, -2.0, 0.5, 4.0)[case["twin"] % 4]
+        with np.errstate(all="ignore"):
+            xcp3, _c3 = get_cauchy_point((x + cs).copy(), g.copy(), lb + cs, ub + cs, mats, 1, -1, None)
+        Bs = dense_B(mats, n)
+        evs_ = np.linalg.eigvalsh(0.5 * (Bs + Bs.T))
+        conds = float(evs_[-1] / max(evs_[0], 1e-300))
+        scs = max(1.0, abs(cs) + float(np.max(np.abs(x))), float(np.max(np.abs(xcp))))
+        errs = float(np.max(np.abs((np.asarray(xcp3, dtype=float) - cs) - np.asarray(xcp, dtype=float))))
+        out["tags"].append("shift_twin_compared=True")
+        if not errs <= 1e-7 * conds * scs:
+            res.append({"what": "the Cauchy point depends on the origin of the variables: the same problem with x, lb and ub translated by one "
+                                "constant does not give the translated point (theorem cauchy_point_shift: the projected path is translated and "
+                                "the model value along it is unchanged)", "key": "", "detail": {"shift": cs, "abs_err": errs, "cond": conds}})
     skips = [r["skip"] for r in res if "skip" in r]
     out["prop"] = [r for r in res if "skip" not in r]
     out["tags"] += [f"tied_breakpoints={bool(case.get('tie'))}", f"all_moving_pinned_family={bool(case.get('pinned'))}", f"n={n}", f"pairs={min(inp['npairs'], 4)}", f"at_bound_outward={bool(np.any(((x == lb) & (g > 0)) | ((x == ub) & (g < 0))))}"] + [f"skip:{s}" for s in skips]
